@@ -551,6 +551,40 @@ inline void register_cpc() {
   families().push_back(f);
 }
 
+// ------------------------------------------------------------------- CPC at exact coupon-count boundaries
+// The compressor picks its encoding table from comparisons such as 4*C < 3*K; with K a power of two the boundary value C = 3K/4 is
+// an integer, so "<" versus "<=" changes the written bytes (and how a baseline image is decoded) for exactly that one count.  The
+// flavour boundaries 3K/32, K/2 and 27K/8 are integers too.  Recipe: update(0), update(1), ... until get_num_coupons() hits the value.
+inline CpcState gen_cpc_boundary(int variant) {
+  uint8_t lg_k; uint64_t num, den;
+  if (variant < 9) { lg_k = static_cast<uint8_t>(4 + variant); num = 3; den = 4; }
+  else { static const uint8_t lgs[] = {6, 9, 12}; lg_k = lgs[(variant - 9) / 3]; const int b = (variant - 9) % 3; num = b == 0 ? 3 : b == 1 ? 1 : 27; den = b == 0 ? 32 : b == 1 ? 2 : 8; }
+  const uint64_t target = ((1ULL << lg_k) * num) / den;
+  const uint64_t seed = seed_for(variant);
+  CpcState st{cpc_sketch(lg_k, seed), seed, {}, lg_k, false};
+  for (uint64_t i = 0; st.sk.get_num_coupons() < target; ++i) {
+    Val v; v.kind = V_U64; v.u = i;
+    st.sk.update(v.u); st.inputs.push_back(v);
+    if (i > 100 * target + 1000) throw std::logic_error("cpc boundary recipe does not reach its coupon count");
+  }
+  return st;
+}
+inline void register_cpc_boundary() {
+  Family f; f.name = "cpc_boundary"; f.group = 1; f.nvariants = 18;
+  f.build = [](int v, Rng&, bool) { CpcState st = gen_cpc_boundary(v); return Built{write_cpc(st.sk, false), readout_cpc(st.sk)}; };
+  f.read = [](const std::string& img, bool stream, int v) { return readout_cpc(read_cpc(img, stream, seed_for(v))); };
+  f.decode_case = [](int v, Rng&, bool) {
+    const int vv = v % 18;
+    CpcState st = gen_cpc_boundary(vv);
+    const std::string ctx = "boundary variant=" + std::to_string(vv) + " lg_k=" + std::to_string(st.lg_k) + " coupons=" + std::to_string(st.sk.get_num_coupons());
+    const std::string b = write_cpc(st.sk, false), s = write_cpc(st.sk, true);
+    decode_check_cpc(st, b, ctx + " path=bytes");
+    if (s != b) { count("cpc_paths_differ"); decode_check_cpc(st, s, ctx + " path=stream"); }
+    if (4ULL * st.sk.get_num_coupons() == (3ULL << st.lg_k)) count("cpc_exactly_three_quarters_k");
+    count("decoded_cpc_boundary");
+  };
+  families().push_back(f);
+}
 #endif // C10_A2
 
 inline void register_group_a() {
@@ -561,7 +595,7 @@ inline void register_group_a() {
     shipped().push_back(Shipped{std::string("theta/test/") + f, f, "theta", [](const std::string& img, bool stream) { return readout_theta(read_theta(img, stream, DEFAULT_SEED), img, DEFAULT_SEED); }});
 #endif
 #ifdef C10_A2
-  register_hll(); register_cpc();
+  register_hll(); register_cpc(); register_cpc_boundary();
 #endif
 }
 
